@@ -10,7 +10,7 @@ RULE = ("DIST-HEADER: the length, Q-ratio and 1-byte checksum distances on all 6
         "random/adversarial/one-bit-apart bodies; DIST-WHOLE: compare_with_config on random, equal, one-bit-apart and "
         "checksum-only-different hash pairs of all five variants in both modes, max_distance.  Every case is decided against "
         "the reference formulas of the property text (independent Python restatement) AND the model.  Non-trivial = distance "
-        "different from 0; distinct by case text.")
+        "different from 0; distinct by case text.  DIST-HEADER (exhaustive) and DIST-WHOLE are repeated on the builds with the other header-distance code (no length table, 16x16 Q table, no Q table) and statically selected pseudo-SIMD body kernels, model under the matching flags.")
 
 
 def run(ctx):
@@ -24,6 +24,17 @@ def run(ctx):
                    predicate=dc.pred_parts, nontrivial=nz)
     ctx.correspond("DIST-WHOLE", suites.dist_whole_cases(ctx.rng.fork("whole"), ctx.tier), hb, db, flags=fl,
                    predicate=dc.pred_parts, nontrivial=nz)
+    # the builds that compile the OTHER header-distance code (no length table: naive ring distance; 16x16 Q table; no Q table) and
+    # select the pseudo-SIMD body kernels statically: exhaustive header suites and the whole-hash suite again, model under their flags
+    for name in ["nosimd", "embedded", "lowmem", "decq"]:
+        hb2 = ctx.harness(name)
+        if hb2 is None:
+            continue
+        fl2 = configs.flags(name)
+        ctx.correspond("DIST-HEADER[%s]" % name, suites.dist_header_cases(ctx.tier), hb2, db, flags=fl2, predicate=dc.pred_parts,
+                       nontrivial=nz, coq_sample=0)
+        ctx.correspond("DIST-WHOLE[%s]" % name, suites.dist_whole_cases(ctx.rng.fork("whole"), ctx.tier), hb2, db, flags=fl2,
+                       predicate=dc.pred_parts, nontrivial=nz, coq_sample=0)
     return finish(ctx)
 
 
